@@ -163,6 +163,8 @@ class Result:
 
 
 def explore(hidx, workers, deadline, max_paths, seed, chunk_paths=150, chunk_time=4.0):
+    """Re-execution mode: every path re-runs the harness from the start under its decision
+    prefix (used where the harness runs real threads, which do not survive fork())."""
     h = _HARNESSES[hidx]
     res = Result(h)
     t0 = time.time()
@@ -177,7 +179,6 @@ def explore(hidx, workers, deadline, max_paths, seed, chunk_paths=150, chunk_tim
                 res.exhausted = False
                 queue.clear()
             while queue and len(inflight) < workers * 2:
-                # small first chunk so that the tree fans out quickly
                 n = 1 if len(queue) < workers * 2 else max(1, min(8, len(queue) // (workers * 2)))
                 batch, queue = queue[-n:], queue[:-n]
                 lim_p = 6 if first or res.paths < workers * 8 else chunk_paths
@@ -190,6 +191,249 @@ def explore(hidx, workers, deadline, max_paths, seed, chunk_paths=150, chunk_tim
                 o = fut.result()
                 res.merge(o)
                 queue.extend(o["leftover"])
+    res.wall = time.time() - t0
+    return res
+
+
+# ------------------------------------------------------------------------------------------------
+# fork mode: the process forks at every decision where more than one side is feasible, so no
+# prefix is ever re-executed.  A semaphore bounds the number of running processes; when no slot
+# is free the parent lends its own slot to the child and waits (depth-first), which bounds the
+# number of live processes by (workers x depth).
+class Forker:
+    def __init__(self, sem, wfd, deadline, tmpdir):
+        self.sem = sem
+        self.wfd = wfd
+        self.deadline = deadline
+        self.tmpdir = tmpdir
+        self.holds = False
+        self.child_hooks = []
+        self.nsplit = 0
+
+    def split(self, n):
+        for k in range(n - 1):
+            if time.time() > self.deadline:
+                self.finish({"status": "budget"})
+            got = self.sem.acquire(False)
+            pid = os.fork()
+            if pid == 0:
+                self.holds = got
+                self.nsplit = 0
+                for hk in self.child_hooks:
+                    hk()
+                return k
+            self.nsplit += 1
+            if not got:
+                _, st = os.waitpid(pid, 0)
+                if st != 0:
+                    self.emit({"status": "crash", "code": st})
+        return n - 1
+
+    def emit(self, rec):
+        data = (json.dumps(rec, default=str) + "\n").encode()
+        if len(data) > 3800:
+            fn = os.path.join(self.tmpdir, f"r{os.getpid()}_{time.time_ns()}.json")
+            with open(fn, "wb") as fh:
+                fh.write(data)
+            data = (json.dumps({"file": fn}) + "\n").encode()
+        os.write(self.wfd, data)
+
+    def finish(self, rec):
+        try:
+            self.emit(rec)
+            if self.holds:
+                self.sem.release()
+        finally:
+            os._exit(0)
+
+
+def _run_path(h, w, p):
+    """Run the harness on one path object; classify how it ended."""
+    rec = {"status": None}
+    try:
+        h.fn(w)
+        rec["status"] = "held"
+    except ViolationFound as v:
+        rec["status"] = "violation"
+        rec["violation"] = {"harness": h.name, "label": v.label, "witness": v.detail,
+                            "decisions": list(p.decisions)}
+    except PathDone:
+        rec["status"] = "held"
+    except Infeasible:
+        rec["status"] = "infeasible"
+    except Cut as c:
+        rec["status"] = "cut"
+        rec["cut"] = str(c)
+    except (Unsupported, SolverUnknown, EngineBug) as s:
+        rec["status"] = "inconclusive"
+        rec["inc"] = {"harness": h.name, "kind": type(s).__name__, "what": str(s)[:300],
+                      "decisions": list(p.decisions)[-40:], "trace": _short_tb(s)}
+    except Signal as s:
+        rec["status"] = "inconclusive"
+        rec["inc"] = {"harness": h.name, "kind": type(s).__name__, "what": str(s)[:300],
+                      "decisions": list(p.decisions)[-40:]}
+    except RecursionError:
+        rec["status"] = "inconclusive"
+        rec["inc"] = {"harness": h.name, "kind": "RecursionError", "what": "", "decisions": []}
+    except Exception as s:  # harness / engine bug
+        rec["status"] = "inconclusive"
+        rec["inc"] = {"harness": h.name, "kind": "HarnessException",
+                      "what": f"{type(s).__name__}: {s}"[:300], "decisions": [],
+                      "trace": _short_tb(s)}
+    return rec
+
+
+def _explorer(h, forker, seed):
+    import gc
+    gc.disable()
+    stats = Stats()
+    p = Path((), timeout_ms=h.timeout_ms, stats=stats)
+    p.forker = forker
+    state = {"funcs": len(I.FUNCS_SEEN), "dec0": 0}
+
+    def on_child():
+        stats.reset()
+        state["funcs"] = len(I.FUNCS_SEEN)
+        state["dec0"] = len(p.decisions)
+    forker.child_hooks.append(on_child)
+    w = World(p)
+    rec = {"status": "inconclusive"}
+    try:
+        rec = _run_path(h, w, p)
+        rec["stats"] = stats.as_dict()
+        rec["dec"] = len(p.decisions) - state["dec0"]
+        rec["depth"] = len(p.decisions)
+        rec["goals"] = sorted(p.goals)
+        rec["checked"] = 1 if p.queries else 0
+        rnd = random.Random((seed * 1000003) ^ os.getpid())
+        if rec["status"] == "held":
+            if rnd.random() < 0.02:
+                try:
+                    rec["sample"] = w.sample()
+                except Signal:
+                    pass
+            if p.queries and rnd.random() < 0.01:
+                rec["query"] = p.queries[-1]
+        if len(I.FUNCS_SEEN) > state["funcs"]:
+            rec["funcs"] = dict(list(I.FUNCS_SEEN.items())[state["funcs"]:])
+    except BaseException as exc:  # never fall back into the caller's stack
+        rec = {"status": "inconclusive",
+               "inc": {"harness": h.name, "kind": "ExplorerException",
+                       "what": f"{type(exc).__name__}: {exc}"[:300], "decisions": []}}
+    finally:
+        forker.finish(rec)
+
+
+def explore_fork(hidx, workers, deadline, max_paths, seed):
+    import ctypes
+    import shutil
+    import signal
+    h = _HARNESSES[hidx]
+    res = Result(h)
+    t0 = time.time()
+    try:
+        ctypes.CDLL(None).prctl(36, 1, 0, 0, 0)  # PR_SET_CHILD_SUBREAPER: orphans come to us
+    except Exception:
+        pass
+    ctx = mp.get_context("fork")
+    sem = ctx.Semaphore(max(0, workers - 1))
+    rfd, wfd = os.pipe()
+    tmpdir = tempfile.mkdtemp(prefix="verif_run_")
+    sys.stdout.flush()
+    sys.stderr.flush()
+    pid = os.fork()
+    if pid == 0:
+        try:
+            os.setpgid(0, 0)
+            os.close(rfd)
+            _explorer(h, Forker(sem, wfd, deadline, tmpdir), seed)
+        finally:
+            os._exit(1)
+    os.close(wfd)
+    buf = b""
+    crashed = 0
+    killed = False
+
+    def handle(rec):
+        nonlocal crashed
+        if "file" in rec:
+            with open(rec["file"]) as fh:
+                rec = json.loads(fh.read())
+        st = rec.get("status")
+        if st == "crash":
+            crashed += 1
+            res.n_inconclusive += 1
+            res.inconclusive.append({"harness": h.name, "kind": "ExplorerCrash",
+                                     "what": f"exit status {rec.get('code')}", "decisions": []})
+            return
+        if st == "budget":
+            res.exhausted = False
+            return
+        res.paths += 1
+        if st == "held":
+            res.held += 1
+        elif st == "infeasible":
+            res.infeasible += 1
+        elif st == "cut":
+            res.cut += 1
+            res.cuts[rec["cut"]] = res.cuts.get(rec["cut"], 0) + 1
+        elif st == "violation":
+            res.violations.append(rec["violation"])
+        else:
+            res.n_inconclusive += 1
+            if len(res.inconclusive) < 40 and rec.get("inc"):
+                res.inconclusive.append(rec["inc"])
+        res.decisions += rec.get("dec", 0)
+        res.checked += rec.get("checked", 0)
+        res.maxdepth = max(res.maxdepth, rec.get("depth", 0))
+        res.goals |= set(rec.get("goals", ()))
+        for k, v in (rec.get("stats") or {}).items():
+            res.stats[k] += v
+        if "sample" in rec and len(res.samples) < 12:
+            res.samples.append(rec["sample"])
+        if "query" in rec and len(res.queries) < 24:
+            res.queries.append(rec["query"])
+        res.funcs.update(rec.get("funcs") or {})
+
+    def reap(block=False):
+        nonlocal crashed
+        while True:
+            try:
+                wpid, st = os.waitpid(-1, 0 if block else os.WNOHANG)
+            except ChildProcessError:
+                return
+            if wpid == 0:
+                return
+            if st != 0 and not killed:
+                crashed += 1
+                res.n_inconclusive += 1
+                if len(res.inconclusive) < 40:
+                    res.inconclusive.append({"harness": h.name, "kind": "ExplorerCrash",
+                                             "what": f"pid {wpid} exit status {st}",
+                                             "decisions": []})
+    last_reap = time.time()
+    while True:
+        chunk = os.read(rfd, 1 << 16)
+        if not chunk:
+            break
+        buf += chunk
+        *lines, buf = buf.split(b"\n")
+        for ln in lines:
+            if ln.strip():
+                handle(json.loads(ln))
+        if time.time() - last_reap > 0.5:
+            reap()
+            last_reap = time.time()
+        if (res.paths > max_paths or time.time() > deadline + 30) and not killed:
+            res.exhausted = False
+            killed = True
+            try:
+                os.killpg(pid, signal.SIGKILL)
+            except ProcessLookupError:
+                pass
+    os.close(rfd)
+    reap(block=True)
+    shutil.rmtree(tmpdir, ignore_errors=True)
     res.wall = time.time() - t0
     return res
 
@@ -288,7 +532,10 @@ def run_check(prop, harnesses, level_text="", tier=None, seed=None, budget_s=Non
         if h.setup:
             h.setup()
         mp_ = h.bounds.get("max_paths", 2_000_000)
-        r = explore(i, workers, deadline, mp_, seed)
+        if h.bounds.get("mode") == "reexec":
+            r = explore(i, workers, deadline, mp_, seed)
+        else:
+            r = explore_fork(i, workers, deadline, mp_, seed)
         results.append(r)
         print(f"[{prop}] harness {h.name}: paths={r.paths} held={r.held} cut={r.cut} "
               f"infeasible={r.infeasible} violations={len(r.violations)} "
